@@ -75,27 +75,28 @@ def counterexample_history(res):
 
 
 def _replay_chunk(args):
-    chunk, tag = args
+    chunk, tag, trig = args
     traces = []
     drift = []
     root = os.path.join(BUILD, 'world-%d' % os.getpid())
     for i, h in chunk:
-        ev, dr = fsim.replay(root, h)
+        # every third history runs with the eviction trigger lowered to 2 entries
+        ev, dr = fsim.replay(root, h, size_trigger=trig if trig else (2 if i % 3 == 0 else None))
         traces.append({'id': i + 1, 'init': 'a', 'events': ev, 'kind': tag, 'hist': h})
         drift += dr[:1]
     return traces, drift
 
 
-def replay_all(hists, tag, start_id=0):
+def replay_all(hists, tag, start_id=0, size_trigger=None):
     """replay histories into the real cache (in worker processes); returns traces for CacheTrace and drift"""
     import concurrent.futures
     from harness.common import NCPU, chunks
     idx = list(enumerate(hists, start_id))
     if len(idx) < 40:
-        return _replay_chunk((idx, tag))
+        return _replay_chunk((idx, tag, size_trigger))
     traces, drift = [], []
     with concurrent.futures.ProcessPoolExecutor(max_workers=NCPU) as ex:
-        for tr, dr in ex.map(_replay_chunk, [(c, tag) for c in chunks(idx, NCPU * 2)]):
+        for tr, dr in ex.map(_replay_chunk, [(c, tag, size_trigger) for c in chunks(idx, NCPU * 2)]):
             traces += tr
             drift += dr
     traces.sort(key=lambda t: t['id'])
